@@ -52,6 +52,13 @@ def classify(sc, stds):
     return "G", None
 
 
+DEBUG_META = {}
+
+
+def sc_prefix(sc, steps, st):
+    return [x["std"] for x in steps if x["n"] <= st["n"]]
+
+
 def work(chunk_id, payload):
     seed, npools, binary, workroot = payload
     rng = np.random.default_rng([seed, chunk_id, 2020])
@@ -98,7 +105,7 @@ def work(chunk_id, payload):
             cls, kappa = classify(sc, prefix)
             ln_solve = s.op("vnacal_new_solve $vn")
             step = dict(n=n + 1, cls=cls, kappa=kappa, add=ln_add,
-                        solve=ln_solve, failed_before=nfail)
+                        solve=ln_solve, failed_before=nfail, std=st)
             if cls == "D":
                 step["addcal"] = s.op("ci=vnacal_add_calibration $vc %s $vn" %
                                       qs("k%d" % n))
@@ -120,6 +127,7 @@ def work(chunk_id, payload):
         meta[cid] = (sc, steps)
     wd = os.path.join(workroot, "w%d" % chunk_id)
     results = R.run_cases(binary, cases, wd, timeout=1800, watchdog=60)
+    DEBUG_META.update(meta)
     for cid, text in cases:
         res = results[cid]
         sc, steps = meta[cid]
@@ -150,10 +158,13 @@ def work(chunk_id, payload):
             if st["cls"] == "U":
                 cbs = [c_ for c_ in es.get("cb", []) if c_[0] != "WARNING"]
                 if es["ret"] != -1 or es.get("errno") != "EDOM":
+                    det = [[(a["equations"], a["unknowns"], a["nullity"])
+                            for a in sc.classify(f_, sc_prefix(sc, steps, st))[0]]
+                           for f_ in range(sc.F)]
                     bad("underdetermined-accepted",
                         "solve with %d standards (fewer equations than "
-                        "unknowns) returned %s errno %s instead of -1/EDOM" % (
-                            st["n"], es["ret"], es.get("errno")))
+                        "unknowns: %s) returned %s errno %s instead of "
+                        "-1/EDOM" % (st["n"], det, es["ret"], es.get("errno")))
                 elif len(cbs) != 1 or cbs[0][0] != "MATH":
                     bad("underdetermined-report",
                         "expected exactly one MATH message, got %s" % cbs)
